@@ -259,3 +259,290 @@ Qed.
 
 Lemma Cmod_4 : Cmod (C1 + C1 + C1 + C1)%C = 4.
 Proof. rewrite <- RtoC_INR4. apply Cmod_INR4. Qed.
+
+(* 2.4  residual of the two candidates  (q / a) rho  and  (c / q) rho,  rho a product of factors 1 + d *)
+Lemma res_root0 (a b c q rho : C) (X : R) : a <> C0 -> near rho X -> X <= 2 ->
+  let x := (q / a * rho)%C in
+  let Q := Cmod q * Cmod q in let B := Cmod b * Cmod q in let A := Cmod a * Cmod c in
+  Cmod a * Cmod (qval a b c x) <= Cmod (q * q + b * q + a * c)%C + Q * (X * X - 1) + B * (X - 1) /\
+  Q * ((2 - X) * (2 - X)) + B * (2 - X) + A <= Cmod a * qsize a b c x.
+Proof.
+  intros Ha Hr HX x Q B A. split.
+  - rewrite <- Cmod_mult.
+    replace (a * qval a b c x)%C
+      with ((q * q + b * q + a * c) + (q * q) * (rho * rho - C1) + (b * q) * (rho - C1))%C
+      by (unfold qval, x; field; exact Ha).
+    eapply Rle_trans; [apply Cmod_tri3|].
+    pose proof (near_mul _ _ _ _ Hr Hr) as Hrr. unfold near in Hr, Hrr.
+    rewrite !Cmod_mult. fold Q B.
+    assert (0 <= Q) by (unfold Q; apply Rle_0_sqr).
+    assert (0 <= B) by (unfold B; apply Rmult_le_pos; apply Cmod_ge_0).
+    assert (Q * Cmod (rho * rho - C1)%C <= Q * (X * X - 1)) by (apply Rmult_le_compat_l; assumption).
+    assert (B * Cmod (rho - C1)%C <= B * (X - 1)) by (apply Rmult_le_compat_l; assumption).
+    lra.
+  - pose proof (near_lo _ _ Hr) as L. set (r := Cmod rho) in *.
+    assert (Pa : 0 < Cmod a) by (now apply Cmod_gt_0).
+    assert (Ex : Cmod x = Cmod q / Cmod a * r).
+    { unfold x. rewrite Cmod_mult, Cmod_div by exact Ha. reflexivity. }
+    unfold qsize. rewrite Ex.
+    replace (Cmod a * (Cmod a * (Cmod q / Cmod a * r) * (Cmod q / Cmod a * r) + Cmod b * (Cmod q / Cmod a * r) + Cmod c))
+      with (Q * (r * r) + B * r + A) by (unfold Q, B, A; field; lra).
+    assert (0 <= Q) by (unfold Q; apply Rle_0_sqr).
+    assert (0 <= B) by (unfold B; apply Rmult_le_pos; apply Cmod_ge_0).
+    assert ((2 - X) * (2 - X) <= r * r) by (apply Rmult_le_compat; lra).
+    assert (Q * ((2 - X) * (2 - X)) <= Q * (r * r)) by (apply Rmult_le_compat_l; assumption).
+    assert (B * (2 - X) <= B * r) by (apply Rmult_le_compat_l; assumption).
+    lra.
+Qed.
+
+Lemma res_root1 (a b c q rho : C) (X : R) : q <> C0 -> near rho X -> X <= 2 ->
+  let x := (c / q * rho)%C in
+  let Q := Cmod q * Cmod q in let B := Cmod b * Cmod q in let A := Cmod a * Cmod c in
+  Q * Cmod (qval a b c x) <= Cmod c * (Cmod (q * q + b * q + a * c)%C + A * (X * X - 1) + B * (X - 1)) /\
+  Cmod c * (A * ((2 - X) * (2 - X)) + B * (2 - X) + Q) <= Q * qsize a b c x.
+Proof.
+  intros Hq Hr HX x Q B A. split.
+  - unfold Q. rewrite <- !Cmod_mult.
+    replace (q * q * qval a b c x)%C
+      with (c * ((q * q + b * q + a * c) + (a * c) * (rho * rho - C1) + (b * q) * (rho - C1)))%C
+      by (unfold qval, x; field; exact Hq).
+    rewrite Cmod_mult. apply Rmult_le_compat_l; [apply Cmod_ge_0|].
+    eapply Rle_trans; [apply Cmod_tri3|].
+    pose proof (near_mul _ _ _ _ Hr Hr) as Hrr. unfold near in Hr, Hrr.
+    rewrite !Cmod_mult. fold B A.
+    assert (0 <= A) by (unfold A; apply Rmult_le_pos; apply Cmod_ge_0).
+    assert (0 <= B) by (unfold B; apply Rmult_le_pos; apply Cmod_ge_0).
+    assert (A * Cmod (rho * rho - C1)%C <= A * (X * X - 1)) by (apply Rmult_le_compat_l; assumption).
+    assert (B * Cmod (rho - C1)%C <= B * (X - 1)) by (apply Rmult_le_compat_l; assumption).
+    lra.
+  - pose proof (near_lo _ _ Hr) as L. set (r := Cmod rho) in *.
+    assert (Pq : 0 < Cmod q) by (now apply Cmod_gt_0).
+    assert (Ex : Cmod x = Cmod c / Cmod q * r).
+    { unfold x. rewrite Cmod_mult, Cmod_div by exact Hq. reflexivity. }
+    unfold qsize. rewrite Ex.
+    replace (Q * (Cmod a * (Cmod c / Cmod q * r) * (Cmod c / Cmod q * r) + Cmod b * (Cmod c / Cmod q * r) + Cmod c))
+      with (Cmod c * (A * (r * r) + B * r + Q)) by (unfold Q, B, A; field; lra).
+    apply Rmult_le_compat_l; [apply Cmod_ge_0|].
+    assert (0 <= A) by (unfold A; apply Rmult_le_pos; apply Cmod_ge_0).
+    assert (0 <= B) by (unfold B; apply Rmult_le_pos; apply Cmod_ge_0).
+    assert ((2 - X) * (2 - X) <= r * r) by (apply Rmult_le_compat; lra).
+    assert (A * ((2 - X) * (2 - X)) <= A * (r * r)) by (apply Rmult_le_compat_l; assumption).
+    assert (B * (2 - X) <= B * r) by (apply Rmult_le_compat_l; assumption).
+    lra.
+Qed.
+
+(* 2.5  E + U (X^2 - 1) + B (X - 1) <= k (U (2 - X)^2 + B (2 - X) + V)  coefficient by coefficient *)
+Lemma combine (U B V E h1 h2 X k : R) : 0 <= U -> 0 <= B -> 0 <= V ->
+  E <= h1 * U + h2 * V ->
+  h1 + (X * X - 1) <= k * ((2 - X) * (2 - X)) -> X - 1 <= k * (2 - X) -> h2 <= k ->
+  E + U * (X * X - 1) + B * (X - 1) <= k * (U * ((2 - X) * (2 - X)) + B * (2 - X) + V).
+Proof.
+  intros HU HB HV HE C1' C2' C3'.
+  assert (K1 : U * (h1 + (X * X - 1)) <= U * (k * ((2 - X) * (2 - X)))) by (apply Rmult_le_compat_l; assumption).
+  assert (K2 : B * (X - 1) <= B * (k * (2 - X))) by (apply Rmult_le_compat_l; assumption).
+  assert (K3 : V * h2 <= V * k) by (apply Rmult_le_compat_l; assumption).
+  lra.
+Qed.
+
+(* 2.6  the constants, for eps <= 1/100 *)
+Lemma numeric_bounds (e : R) : 0 <= e <= / 100 ->
+  let X5 := (1 + e) * (1 + e) * (1 + e) * (1 + e) * (1 + e) in
+  let Xq := (1 + e * (1 + e)) * (1 + e) * (1 + e) in
+  X5 - 1 <= 5.11 * e /\ (X5 - 1) / (1 - e) <= 5.17 * e /\
+  Xq * (1 + e) <= 1 + 4.09 * e /\ Xq <= 1 + 3.05 * e /\ (1 + e) * / (2 - Xq) <= 1 + 4.19 * e.
+Proof.
+  intros He X5 Xq.
+  assert (E2 : e * e <= e / 100) by nra.
+  assert (H2 : (1 + e) * (1 + e) <= 1 + 2.01 * e) by nra.
+  assert (L2 : 1 <= (1 + e) * (1 + e)) by nra.
+  assert (H3 : (1 + e) * (1 + e) * (1 + e) <= 1 + 3.0301 * e).
+  { revert H2 L2. generalize ((1 + e) * (1 + e)). intros y H2 L2. nra. }
+  assert (L3 : 1 <= (1 + e) * (1 + e) * (1 + e)).
+  { revert L2. generalize ((1 + e) * (1 + e)). intros y L2. nra. }
+  assert (H4 : (1 + e) * (1 + e) * (1 + e) * (1 + e) <= 1 + 4.0605 * e).
+  { revert H3 L3. generalize ((1 + e) * (1 + e) * (1 + e)). intros y H3 L3. nra. }
+  assert (L4 : 1 <= (1 + e) * (1 + e) * (1 + e) * (1 + e)).
+  { revert L3. generalize ((1 + e) * (1 + e) * (1 + e)). intros y L3. nra. }
+  assert (H5 : X5 <= 1 + 5.11 * e).
+  { unfold X5. revert H4 L4. generalize ((1 + e) * (1 + e) * (1 + e) * (1 + e)). intros y H4 L4. nra. }
+  assert (L5 : 1 <= X5).
+  { unfold X5. revert L4. generalize ((1 + e) * (1 + e) * (1 + e) * (1 + e)). intros y L4. nra. }
+  assert (Ha : 1 + e * (1 + e) <= 1 + 1.01 * e) by nra.
+  assert (La : 1 <= 1 + e * (1 + e)) by nra.
+  assert (Hq : Xq <= 1 + 3.05 * e).
+  { unfold Xq. replace ((1 + e * (1 + e)) * (1 + e) * (1 + e)) with ((1 + e * (1 + e)) * ((1 + e) * (1 + e))) by ring.
+    revert H2 L2 Ha La. generalize ((1 + e) * (1 + e)) (1 + e * (1 + e)). intros y z H2 L2 Ha La. nra. }
+  assert (Lq : 1 <= Xq).
+  { unfold Xq. replace ((1 + e * (1 + e)) * (1 + e) * (1 + e)) with ((1 + e * (1 + e)) * ((1 + e) * (1 + e))) by ring.
+    revert L2 La. generalize ((1 + e) * (1 + e)) (1 + e * (1 + e)). intros y z L2 La. nra. }
+  split; [lra|]. split.
+  { apply (Rmult_le_reg_r (1 - e)); [lra|]. unfold Rdiv. rewrite Rmult_assoc, Rinv_l by lra. nra. }
+  split.
+  { revert Hq Lq. generalize Xq. intros y Hq Lq. nra. }
+  split; [exact Hq|].
+  assert (P : 0 < 2 - Xq) by lra.
+  apply (Rmult_le_reg_r (2 - Xq)); [exact P|]. rewrite Rmult_assoc, Rinv_l by lra.
+  revert Hq Lq P. generalize Xq. intros y Hq Lq P. nra.
+Qed.
+
+Lemma numeric_final (e h1 h2 X : R) : 0 <= e <= / 100 ->
+  0 <= h1 <= 5.17 * e -> 0 <= h2 <= 5.17 * e -> 1 <= X <= 1 + 4.19 * e ->
+  X <= 2 /\ h1 + (X * X - 1) <= 16 * e * ((2 - X) * (2 - X)) /\ X - 1 <= 16 * e * (2 - X) /\ h2 <= 16 * e.
+Proof.
+  intros He H1 H2 HX.
+  assert (A1 : X * X - 1 <= 8.56 * e) by nra.
+  assert (A2 : 0.91 <= (2 - X) * (2 - X)) by nra.
+  repeat split; try lra; nra.
+Qed.
+
+(* ---------------------------------------------------------------- 3. the arithmetic, and the model in it *)
+Section RoundArith.
+Variable eps : R.
+Hypothesis eps_nonneg : 0 <= eps.
+
+(* NOT used by the closed forms of degree <= 2: arbitrary, no hypothesis *)
+Variables (radd rsub rmul rdiv : R -> R -> R) (rsqrt : R -> R) (rfr : list R).
+Variables (kabs_ : C -> R) (kabsA : C -> C) (kdivr_ : C -> R -> C) (kltb_ kleb_ : C -> C -> bool).
+Variables (fpow : C -> C -> C) (fpolar : R -> R -> C).
+
+(* the rounded complex operations *)
+Variables (fadd fsub fmul fdiv : C -> C -> C) (fscale : C -> R -> C) (fsqrt : C -> C).
+Hypothesis fadd_ok : forall x y : C, Cmod (fadd x y - (x + y))%C <= eps * Cmod (x + y)%C.
+Hypothesis fsub_ok : forall x y : C, Cmod (fsub x y - (x - y))%C <= eps * Cmod (x - y)%C.
+Hypothesis fmul_ok : forall x y : C, Cmod (fmul x y - x * y)%C <= eps * Cmod (x * y)%C.
+Hypothesis fdiv_ok : forall x y : C, y <> C0 -> Cmod (fdiv x y - x / y)%C <= eps * Cmod (x / y)%C.
+Hypothesis fscale_ok : forall (z : C) (r : R), Cmod (fscale z r - z * RtoC r)%C <= eps * Cmod (z * RtoC r)%C.
+Hypothesis fsqrt_ok : forall z : C, exists w : C, (w * w)%C = z /\ Cmod (fsqrt z - w)%C <= eps * Cmod w.
+
+(* f64: only the literals, negation and the comparisons are used (exact in IEEE arithmetic) *)
+Definition RRm : SArith := {|
+  SA := {| T := R; zero := 0; one := 1; add := radd; sub := rsub; mul := rmul; neg := Ropp; abs := Rabs;
+           div := fun x y => Ok (rdiv x y);
+           eqb := fun x y => if Req_EM_T x y then true else false;
+           ltb := fun x y => if Rlt_dec x y then true else false;
+           leb := fun x y => if Rle_dec x y then true else false |};
+  sqrt := rsqrt; of_nat := INR |}.
+
+(* Complex<f64>: + - * / rounded; negation and == exact *)
+Definition KKm : Arith := {|
+  T := C; zero := C0; one := C1; add := fadd; sub := fsub; mul := fmul; neg := Copp; abs := kabsA;
+  div := fun x y => Ok (fdiv x y);
+  eqb := fun x y => if Ceq_dec x y then true else false;
+  ltb := kltb_; leb := kleb_ |}.
+
+Definition RoundRA : RootArith := {|
+  RR := RRm; KK := KKm;
+  mkk := fun x y => (x, y); kre := fst; kim := snd; kabs := kabs_; kconj := Cconj;
+  kmulr := fscale; kdivr := fun z r => Ok (kdivr_ z r);
+  rfabs := Rabs; rmax := Rmax; rhalf := / 2; reps := eps; rfrac := rfr;
+  kfinite := fun _ => true; rfinite := fun _ => true;
+  osqrt := fun z => Ok (fsqrt z); opow := fun z w => Ok (fpow z w); opolar := fun r th => Ok (fpolar r th) |}.
+
+(* the values the model computes *)
+Definition q_disc (a b c : C) : C := fsub (fmul b b) (fmul (fscale a (INR 4)) c).
+Definition q_sgn (a b c : C) : R :=
+  if (if Rle_dec 0 (fst (fmul (Cconj b) (fsqrt (q_disc a b c)))) then true else false) then 1 else Ropp 1.
+Definition q_q (a b c : C) : C := fscale (fadd b (fscale (fsqrt (q_disc a b c)) (q_sgn a b c))) (Ropp (/ 2)).
+
+Lemma quadratic_solve_round_eq (a b c : C) :
+  quadratic_solve RoundRA a b c =
+  Ok [fdiv (q_q a b c) a; if Ceq_dec (q_q a b c) C0 then fdiv (q_q a b c) a else fdiv c (q_q a b c)].
+Proof.
+  unfold quadratic_solve, quadratic_solve_gen.
+  cbn [osqrt RoundRA bind kmulr kre kconj rhalf KK RR SA rlit of_nat andb KKm RRm sub mul add neg div eqb leb zero one T].
+  fold (q_disc a b c). fold (q_sgn a b c). fold (q_q a b c).
+  destruct (Ceq_dec (q_q a b c) C0); reflexivity.
+Qed.
+
+(* 3.1  the computed q is  qx * rho  with qx = -(b + sg sh)/2 for a square root sh of a slightly wrong discriminant *)
+Lemma quad_core (a b c : C) : eps <= / 100 ->
+  let X5 := (1 + eps) * (1 + eps) * (1 + eps) * (1 + eps) * (1 + eps) in
+  let Xq := (1 + eps * (1 + eps)) * (1 + eps) * (1 + eps) in
+  exists qx rho : C,
+    q_q a b c = (qx * rho)%C /\ near rho Xq /\
+    Cmod (qx * qx + b * qx + a * c)%C
+      <= (X5 - 1) / (1 - eps) * (Cmod qx * Cmod qx) + (X5 - 1) * (Cmod a * Cmod c).
+Proof.
+  intros He X5 Xq.
+  (* the discriminant and its square root *)
+  destruct (rel_mult eps _ _ eps_nonneg (fmul_ok b b)) as (d1 & D1 & E1).
+  destruct (rel_mult eps _ _ eps_nonneg (fscale_ok a (INR 4))) as (d2 & D2 & E2).
+  destruct (rel_mult eps _ _ eps_nonneg (fmul_ok (fscale a (INR 4)) c)) as (d3 & D3 & E3).
+  destruct (rel_mult eps _ _ eps_nonneg (fsub_ok (fmul b b) (fmul (fscale a (INR 4)) c))) as (d4 & D4 & E4).
+  fold (q_disc a b c) in E4.
+  destruct (fsqrt_ok (q_disc a b c)) as (w & Ew & Hw).
+  destruct (rel_mult eps _ _ eps_nonneg Hw) as (d5 & D5 & E5).
+  set (sh := fsqrt (q_disc a b c)) in *.
+  pose proof (disc_err eps a b c _ _ _ _ w sh d1 d2 d3 d4 d5 eps_nonneg D1 D2 D3 D4 D5 E1 E2 E3 E4 Ew E5) as HD.
+  cbv zeta in HD. fold X5 in HD.
+  (* the sign *)
+  destruct (sign_no_cancel eps b sh (fmul (Cconj b) sh) eps_nonneg (fmul_ok (Cconj b) sh)) as [Hsg Hre].
+  fold sh in Hsg, Hre. change (if (if Rle_dec 0 (fst (fmul (Cconj b) sh)) then true else false) then 1 else Ropp 1)
+    with (q_sgn a b c) in Hsg, Hre.
+  set (sg := q_sgn a b c) in *.
+  set (m := (sh * RtoC sg)%C) in *.
+  assert (Emm : (m * m)%C = (sh * sh)%C).
+  { unfold m. destruct Hsg as [-> | ->]; [ring | rewrite RtoC_opp; ring]. }
+  assert (Mm : Cmod m = Cmod sh).
+  { unfold m. rewrite Cmod_mult, Cmod_R. destruct Hsg as [-> | ->].
+    - rewrite Rabs_R1. ring.
+    - rewrite Rabs_Ropp, Rabs_R1. ring. }
+  rewrite <- Mm in Hre.
+  assert (Her : 0 <= eps < 1) by lra.
+  pose proof (no_cancel_bounds eps b m Her Hre) as NC.
+  set (t := (b + m)%C) in *.
+  set (qx := (t * RtoC (- / 2))%C).
+  assert (Mq : Cmod t = 2 * Cmod qx).
+  { unfold qx. rewrite Cmod_mult, Cmod_mhalf. field. }
+  pose proof (Cmod_ge_0 b) as Pb. pose proof (Cmod_ge_0 m) as Pm. pose proof (Cmod_ge_0 t) as Pt.
+  pose proof (Cmod_ge_0 qx) as Pq. pose proof (Cmod_ge_0 a) as Pa. pose proof (Cmod_ge_0 c) as Pc.
+  (* E *)
+  assert (HE : Cmod (qx * qx + b * qx + a * c)%C
+               <= (X5 - 1) / (1 - eps) * (Cmod qx * Cmod qx) + (X5 - 1) * (Cmod a * Cmod c)).
+  { pose proof (q_identity a b c m) as QI. cbv zeta in QI. fold t in QI. fold qx in QI.
+    assert (K : 4 * Cmod (qx * qx + b * qx + a * c)%C = Cmod (sh * sh - qdisc a b c)%C).
+    { rewrite <- Emm, <- QI, Cmod_mult, Cmod_4. reflexivity. }
+    assert (X5pos : 0 <= X5 - 1).
+    { pose proof (Cmod_ge_0 (sh * sh - qdisc a b c)%C).
+      destruct (Rle_dec 0 (X5 - 1)) as [L|N]; [exact L|]. exfalso.
+      unfold X5 in N. assert (1 <= (1 + eps) * (1 + eps)) by nra.
+      assert (1 <= (1 + eps) * (1 + eps) * (1 + eps)) by nra.
+      assert (1 <= (1 + eps) * (1 + eps) * (1 + eps) * (1 + eps)) by nra. nra. }
+    assert (Bq : Cmod b * Cmod b <= 4 * (Cmod qx * Cmod qx) / (1 - eps)).
+    { apply (Rmult_le_reg_r (1 - eps)); [lra|].
+      replace (4 * (Cmod qx * Cmod qx) / (1 - eps) * (1 - eps)) with (4 * (Cmod qx * Cmod qx)) by (field; lra).
+      rewrite Mq in NC. assert (0 <= Cmod m * Cmod m) by apply Rle_0_sqr. nra. }
+    assert (K2 : (X5 - 1) * (Cmod b * Cmod b) <= (X5 - 1) * (4 * (Cmod qx * Cmod qx) / (1 - eps)))
+      by (apply Rmult_le_compat_l; assumption).
+    replace ((X5 - 1) / (1 - eps) * (Cmod qx * Cmod qx)) with ((X5 - 1) * (4 * (Cmod qx * Cmod qx) / (1 - eps)) / 4)
+      by (field; lra).
+    lra. }
+  (* the rounded sum and the scaling by -1/2 *)
+  destruct (rel_mult eps _ _ eps_nonneg (fscale_ok sh sg)) as (d6 & D6 & E6). fold m in E6.
+  destruct (rel_mult eps _ _ eps_nonneg (fadd_ok b (fscale sh sg))) as (d7 & D7 & E7).
+  destruct (rel_mult eps _ _ eps_nonneg (fscale_ok (fadd b (fscale sh sg)) (- / 2))) as (d8 & D8 & E8).
+  assert (HA : exists ra : C, near ra (1 + eps * (1 + eps)) /\ (b + m * (C1 + d6))%C = (t * ra)%C).
+  { destruct (Ceq_dec t C0) as [Z|NZ].
+    - exists C1. split; [eapply near_mono; [apply near_1|nra]|].
+      rewrite Z, Cmod_0 in NC.
+      assert (Zb : Cmod b = 0) by nra. assert (Zm : Cmod m = 0) by nra.
+      apply Cmod_eq_0 in Zb, Zm. rewrite Z, Zb, Zm. ring.
+    - exists (C1 + m * d6 / t)%C. split; [|unfold t; field; exact NZ].
+      apply near_1pd. rewrite Cmod_div, Cmod_mult by exact NZ.
+      assert (Pt' : 0 < Cmod t) by (now apply Cmod_gt_0).
+      assert (Lm : Cmod m <= (1 + eps) * Cmod t).
+      { apply sq_le_lin; try lra.
+        assert (0 <= Cmod b * Cmod b) by apply Rle_0_sqr.
+        assert (G : 1 <= (1 + eps) * (1 + eps) * (1 - eps)) by nra.
+        assert (0 <= Cmod t * Cmod t) by apply Rle_0_sqr.
+        assert (G2 : Cmod t * Cmod t <= ((1 + eps) * (1 + eps) * (1 - eps)) * (Cmod t * Cmod t)) by nra.
+        nra. }
+      apply (Rmult_le_reg_r (Cmod t)); [exact Pt'|]. unfold Rdiv. rewrite Rmult_assoc, Rinv_l by lra.
+      pose proof (Cmod_ge_0 d6). nra. }
+  destruct HA as (ra & Nra & Era).
+  exists qx, (ra * (C1 + d7) * (C1 + d8))%C. split; [|split; [|exact HE]].
+  - unfold q_q. fold sh. fold sg. rewrite E8, E7, E6, Era. unfold qx. ring.
+  - unfold Xq. repeat apply near_mul; try assumption; apply near_1pd; assumption.
+Qed.
+
+End RoundArith.
